@@ -241,6 +241,54 @@ def h01b(c):
         c.cover("event")
 
 
+def h01t(c):
+    """end to end through a batching transaction: a new order on selection 1 and a second request on selection 2 in one
+    market.transaction() block with explicit execute() calls at symbolic positions, real default controls, real package creation,
+    every package handed to the real simulated execution against a book that fills everything: what the exchange has then
+    matched / holds for the strategy on the selection loses no more than the configured limit, and each accepted order was handed
+    over exactly once"""
+    with cm.config_set(simulated=True, place_latency=0.0):
+        ms = c.cents("max_selection", 0, 5000000)
+        fl, (client,), (strategy,) = cm.new_sim(strategy_kwargs=dict(max_order_exposure=None, max_selection_exposure=ms, max_live_trade_count=10))
+        side = c.choose("side", ["BACK", "LAY"])
+        size = c.cents("size", 1, 5000000)
+        price = c.pick("price", [1.5, 2.0, 3.0, 11.0])
+        deep = [{"price": 1000.0, "size": 10000000.0}]
+        bk = cm.book([cm.runner(1, atb=deep, atl=[{"price": 1.01, "size": 10000000.0}]), cm.runner(2, atb=deep, atl=[{"price": 1.01, "size": 10000000.0}])])
+        market = cm.add_market(fl, bk)
+        delivered = []
+        real_handler = client.execution.handler
+        a = cm.mk_limit(strategy, side, price, size)
+        b = cm.mk_limit(strategy, "BACK", 2.0, 2.0, selection_id=2)
+        with fl.simulated_datetime:
+            with c.guard("transaction"):
+                with market.transaction() as t:
+                    ok_a = t.place_order(a)
+                    if c.choose("execute_after_first", [False, True]):
+                        t.execute()
+                    ok_b = t.place_order(b)
+                    if c.choose("execute_after_second", [False, True]):
+                        t.execute()
+                        if c.choose("execute_twice", [False, True]):
+                            t.execute()
+            with c.guard("delivery"):
+                while fl.handler_queue:
+                    p = fl.handler_queue.pop(0)
+                    delivered.extend(p._orders)
+                    real_handler(p)
+        c.observe("accepted", ok_a)
+        n_a = len([o for o in delivered if o is a])
+        if ok_a:
+            c.cover("accepted")
+            c.ob("accepted.handed-to-exchange-exactly-once", n_a == 1, times=n_a)
+            c.ob("exchange-side.loss-within-selection-limit", _order_loss(c, a) <= ms + TOL)
+        else:
+            c.cover("refused")
+            c.ob("refused.never-sent", n_a == 0)
+            c.ob("refused.violation", a.status == OrderStatus.VIOLATION)
+        c.ob("second-order.handed-over-at-most-once", len([o for o in delivered if o is b]) == (1 if ok_b else 0))
+
+
 OUT = ["more than n prior orders per selection", "prices outside the finite set in mode S / sizes outside the finite set in mode P",
        "Betdaq UPDATE (price/size change) path", "H01b covers one event on one order (composition over orders and events is the induction argument, not a query)"]
 HARNESSES = [
@@ -250,6 +298,7 @@ HARNESSES = [
             wall_s=(300, 3000), max_paths=(150000, 5000000), outside=OUT),
     Harness("H01a-mkt", h01a, quick=dict(n=1, mode="S", market_limit=True, others=1, winners=(1,), sel_limit_too=False), thorough=dict(n=1, mode="S", market_limit=True, others=2),
             pattern="P2 inductive step", requires=["accepted", "refused"], wall_s=(300, 3000), max_paths=(150000, 5000000), outside=OUT),
+    Harness("H01t", h01t, pattern="P3 short history (batching transaction -> real simulated execution)", requires=["accepted", "refused"], outside=OUT),
     Harness("H01b", h01b, pattern="P2 inductive step", requires=["event", "sp"], outside=OUT),
     Harness("H01r-S", h01r, quick=dict(n=1, mode="S"), thorough=dict(n=2, mode="S"), pattern="P2 inductive step", requires=["accepted", "refused"],
             wall_s=(300, 3000), max_paths=(150000, 5000000), outside=OUT),
